@@ -106,6 +106,23 @@ elif name == 'P1_poll_init_checks_fd_first':
     return UV_EEXIST;
 ''')
     open(pp, 'w').write(t)
+elif name == 'N1_null_check_before_exchange':
+    rep('''    /* Atomically fetch and clear pending flag */
+    pending = (_Atomic int*) &h->pending;
+    if (atomic_exchange(pending, 0) == 0)
+      continue;
+
+    if (h->async_cb == NULL)
+      continue;
+''', '''    /* Nothing to run, don't bother with the atomic. */
+    if (h->async_cb == NULL)
+      continue;
+
+    /* Atomically fetch and clear pending flag */
+    pending = (_Atomic int*) &h->pending;
+    if (atomic_exchange(pending, 0) == 0)
+      continue;
+''')
 elif name == 'R1_refactor':
     rep('  atomic_fetch_add(busy, -1);\n', '  atomic_fetch_sub(busy, 1);\n')
     rep('  uv__queue_remove(&handle->queue);\n  uv__handle_stop(handle);', '  uv__handle_stop(handle);\n  uv__queue_remove(&handle->queue);')
